@@ -198,3 +198,18 @@ pub fn first_diff(a: &[u8], b: &[u8]) -> Option<usize> {
         None
     }
 }
+
+/// the same vector with spare capacity (what a caller who collected the elements with push() in a loop hands over):
+/// length-based code is unaffected, capacity-based code is exposed
+pub fn spare<T>(mut v: Vec<T>) -> Vec<T> {
+    let extra = v.len() % 7 + 3;
+    v.reserve_exact(extra);
+    debug_assert!(v.capacity() >= v.len() + extra);
+    v
+}
+/// the same string with spare capacity
+pub fn spare_string(s: &str) -> String {
+    let mut o = String::with_capacity(s.len() + s.len() % 5 + 4);
+    o.push_str(s);
+    o
+}
